@@ -17,6 +17,7 @@ import (
 	"os"
 	"path/filepath"
 	"runtime"
+	"sort"
 	"sync"
 	"sync/atomic"
 	"testing"
@@ -402,6 +403,20 @@ func TestVerifC03(t *testing.T) {
 		}
 		for _, sig := range csigs {
 			mk("getTransaction", fmt.Sprintf(`"%s",{"encoding":"base64"}`, sig))
+		}
+		// address histories (every address must get its own signatures, also while others are being read)
+		{
+			var addrs []solana.PublicKey
+			for k := range known {
+				addrs = append(addrs, k)
+			}
+			sort.Slice(addrs, func(i, j int) bool { return bytes.Compare(addrs[i][:], addrs[j][:]) < 0 })
+			for i := 0; i < len(addrs) && i < 60; i++ {
+				mk("getSignaturesForAddress", fmt.Sprintf(`"%s",{"limit":25}`, addrs[(i*7919)%len(addrs)]))
+			}
+			for _, k := range caddrs {
+				mk("getSignaturesForAddress", fmt.Sprintf(`"%s",{"limit":25}`, k))
+			}
 		}
 		call := func(body string) []byte {
 			var fctx fasthttp.RequestCtx
